@@ -531,10 +531,12 @@ def call_lua_sandbox(
                 ret = ctx.create_strip_marker("nowiki", "")
             else:
                 ctx.expand_stack.append("extensionTag()")
-                ret = tag_fn(
-                    ctx, "#tag", [name, content] + attrs2, lambda x: x
-                )  # Already expanded
-                ctx.expand_stack.pop()
+                try:
+                    ret = tag_fn(
+                        ctx, "#tag", [name, content] + attrs2, lambda x: x
+                    )  # Already expanded
+                finally:
+                    ctx.expand_stack.pop()
                 # Expand any templates from the result
                 ret = preprocess(frame, ret)
             return ret
@@ -615,9 +617,12 @@ def call_lua_sandbox(
             # <nowiki> and comments are handled before encoding, as
             # expand() does for page text
             encoded = ctx._encode(ctx.preprocess_text(v))
+            depth = len(ctx.expand_stack)
             ctx.expand_stack.append("frame:preprocess()")
-            ret = expand_all_templates(encoded)
-            ctx.expand_stack.pop()
+            try:
+                ret = expand_all_templates(encoded)
+            finally:
+                del ctx.expand_stack[depth:]
             if (
                 m := re.fullmatch(r"(=+)([^=]+)\1", v)
             ) is not None and ret.startswith(m.group(1)):
@@ -658,9 +663,12 @@ def call_lua_sandbox(
             for k, v in sorted(items.items(), key=lambda x: str(x[0])):
                 new_args.append("{}={}".format(k, v))
             encoded = ctx._save_value("T", new_args, False)
+            depth = len(ctx.expand_stack)
             ctx.expand_stack.append("frame:expandTemplate()")
-            ret = expand_all_templates(encoded)
-            ctx.expand_stack.pop()
+            try:
+                ret = expand_all_templates(encoded)
+            finally:
+                del ctx.expand_stack[depth:]
             return ret
 
         def lua_get_parent(
